@@ -233,6 +233,16 @@ def _tg_step(m, op):
                 call(r.removeTier, nm)
             if snap_tg(tg) != before:
                 viols.append(Viol("result-aliases-receiver", f"{tag}: mutating the returned textgrid changed the receiver"))
+    if st == "ok" and op[0] in ("shift", "appendtg", "merge") and not viols and isinstance(r, Textgrid) and r is not tg:
+        # these results may share tier OBJECTS with their sources; textgrid-level mutators on the result must still
+        # leave the sources alone (they work on the textgrid, never on a tier object in place)
+        for nm in list(r.tierNames):
+            call(r.renameTier, nm, nm + "_r")
+        for nm in list(r.tierNames)[:1]:
+            call(r.removeTier, nm)
+        if snap_tg(tg) != before or snap_tg(other) != obefore:
+            viols.append(Viol("mutating-the-result-changed-a-source", f"{tag}: renameTier/removeTier on the returned textgrid changed "
+                                                                      f"{'the receiver' if snap_tg(tg) != before else 'the argument'}: {snap_tg(tg)[:1]} / {snap_tg(other)[:1]}"))
     return None, 1, op[0] + (":raised" if st == "exc" else ""), (op[0], st, len(m[0])), viols
 
 
